@@ -51,11 +51,22 @@ func c07RandVal(rng *rand.Rand, n int) c07Val {
 	}
 	if rng.Intn(2) == 0 {
 		k := 1 + rng.Intn(4)
+		if rng.Intn(4) == 0 {
+			k = 9 + rng.Intn(8) // more entries than a small Go map holds in one bucket
+		}
 		used := map[int]bool{}
+		first := 0
 		for j := 0; j < k; j++ {
 			p := 1 + rng.Intn(n)
+			if j == 0 {
+				first = p
+			}
+			if j == 2 && rng.Intn(2) == 0 {
+				p = n + 1 - first // the mirror position of the first mismatch
+			}
 			if j == 0 && rng.Intn(2) == 0 {
 				p = n // the last position is the interesting one
+				first = p
 			}
 			if j == 1 && rng.Intn(2) == 0 {
 				p = 1
